@@ -118,67 +118,95 @@ func checkC13(r *Run) {
 
 func (c *Ctx) ruleKeepAliveClassify(rr *RuleRep, ka *ssa.Function, ctx, ctxTo ssa.Value, wt, ping *ssa.Call, fe ifEdge, onlyParent ...bool) {
 	parentOnly := len(onlyParent) > 0 && onlyParent[0]
-	var selParent, selTo *ssa.Select
+	// a "done test" of a context: a non-blocking select with a receive from X.Done() (done edge = the case, not-done edge =
+	// the default), or a branch on X.Err() != nil / == nil
+	type doneTest struct {
+		At            ssa.Instruction
+		Done, NotDone ifEdge
+	}
+	var tests [2][]doneTest // 0 = parent, 1 = timeout context
 	merged := false
+	var mergedAt ssa.Instruction
+	ctxs := []ssa.Value{ctx, ctxTo}
 	eachInstr(ka, func(in ssa.Instruction) {
-		sel, ok := in.(*ssa.Select)
-		if !ok {
-			return
-		}
-		hasP, hasT := false, false
-		for _, s := range sel.States {
-			if s.Dir != types.RecvOnly {
-				continue
+		switch x := in.(type) {
+		case *ssa.Select:
+			has := [2]int{-1, -1}
+			for i, s := range x.States {
+				if s.Dir != types.RecvOnly {
+					continue
+				}
+				for k := range ctxs {
+					if c.isCtxMethodOf(s.Chan, "Done", ctxs[k]) {
+						has[k] = i
+					}
+				}
 			}
-			if c.isCtxMethodOf(s.Chan, "Done", ctx) {
-				hasP = true
+			if has[0] >= 0 && has[1] >= 0 {
+				merged = true
+				mergedAt = in
 			}
-			if c.isCtxMethodOf(s.Chan, "Done", ctxTo) {
-				hasT = true
+			if x.Blocking {
+				return
 			}
-		}
-		if hasP && hasT {
-			merged = true
-		}
-		if hasP {
-			selParent = sel
-		}
-		if hasT {
-			selTo = sel
+			cases := selectCases(x)
+			var def *selCase
+			for i := range cases {
+				if cases[i].Idx == -1 {
+					def = &cases[i]
+				}
+			}
+			for k := range ctxs {
+				if has[k] < 0 || def == nil || !def.HasEdge {
+					continue
+				}
+				for i := range cases {
+					if cases[i].Idx == has[k] && cases[i].HasEdge {
+						tests[k] = append(tests[k], doneTest{in, cases[i].Edge, def.Edge})
+					}
+				}
+			}
+		case *ssa.If:
+			bin, ok := x.Cond.(*ssa.BinOp)
+			if !ok || (bin.Op != token.NEQ && bin.Op != token.EQL) {
+				return
+			}
+			var v ssa.Value
+			switch {
+			case isNilConst(bin.Y):
+				v = bin.X
+			case isNilConst(bin.X):
+				v = bin.Y
+			default:
+				return
+			}
+			for k := range ctxs {
+				if c.isCtxMethodOf(v, "Err", ctxs[k]) {
+					d, nd := ifEdge{x.Block(), 0}, ifEdge{x.Block(), 1}
+					if bin.Op == token.EQL {
+						d, nd = nd, d
+					}
+					tests[k] = append(tests[k], doneTest{in, d, nd})
+				}
+			}
 		}
 	})
 	if merged {
-		rr.Bad("KeepAlive/priority", selParent.Pos(), "the parent-context test and the timeout test are cases of one select: when the caller cancels, both are ready and Go picks at random, so a cancellation is reported as ErrPingTimeout about half the time")
+		rr.Bad("KeepAlive/priority", mergedAt.Pos(), "the parent-context test and the timeout test are cases of one select: when the caller cancels, both are ready and Go picks at random, so a cancellation is reported as ErrPingTimeout about half the time")
 		return
 	}
-	if selParent == nil || selTo == nil || selParent.Blocking || selTo.Blocking {
+	if len(tests[0]) != 1 || len(tests[1]) != 1 {
 		rr.Bad("KeepAlive/tests", ping.Pos(), "the error edge lacks the non-blocking tests of the parent context and of the timeout context")
 		return
 	}
-	// parent test first: selTo is reachable only through selParent's default edge
-	var pCase, pDef, tCase *selCase
-	pc := selectCases(selParent)
-	for i := range pc {
-		if pc[i].Idx == -1 {
-			pDef = &pc[i]
-		} else {
-			pCase = &pc[i]
-		}
-	}
-	tc := selectCases(selTo)
-	for i := range tc {
-		if tc[i].Idx != -1 {
-			tCase = &tc[i]
-		}
-	}
-	if pCase == nil || pDef == nil || tCase == nil || !pCase.HasEdge || !pDef.HasEdge || !tCase.HasEdge {
-		rr.Undecided("KeepAlive/tests", selParent.Pos(), "cannot locate select case edges")
-		return
-	}
-	if !DominatedByEdge(ka, selTo, pDef.Edge.B, pDef.Edge.K, PathQ{}) || !DominatedByEdge(ka, selParent, fe.B, fe.K, PathQ{}) {
-		rr.Bad("KeepAlive/priority", selTo.Pos(), "the timeout test is not ordered after the (negative) parent-context test on the error edge: a cancelled caller context can be reported as a ping timeout")
+	tp, tt := tests[0][0], tests[1][0]
+	pCase := &selCase{Edge: tp.Done, HasEdge: true}
+	tCase := &selCase{Edge: tt.Done, HasEdge: true}
+	tc := []selCase{{Idx: -1, Edge: tt.NotDone, HasEdge: true}}
+	if !DominatedByEdge(ka, tt.At, tp.NotDone.B, tp.NotDone.K, PathQ{}) || !DominatedByEdge(ka, tp.At, fe.B, fe.K, PathQ{}) {
+		rr.Bad("KeepAlive/priority", tt.At.Pos(), "the timeout test is not ordered after the (negative) parent-context test on the error edge: a cancelled caller context can be reported as a ping timeout")
 	} else {
-		rr.OK("KeepAlive/priority", selTo.Pos(), "parent ctx.Done() is tested first; the timeout test is reachable only through its default edge")
+		rr.OK("KeepAlive/priority", tt.At.Pos(), "the parent context is tested first; the timeout test is reachable only through its not-done edge")
 	}
 	// returns
 	chk := func(cs *selCase, name string, pred func(ssa.Value) bool, want string) {
@@ -235,15 +263,15 @@ func (c *Ctx) ruleKeepAliveClassify(rr *RuleRep, ka *ssa.Function, ctx, ctxTo ss
 		if !isCancelCall(in) {
 			return
 		}
-		_, afterPing := CanReach(ka, ping, func(x ssa.Instruction) bool { return x == in }, PathQ{BlockInstr: func(x ssa.Instruction) bool { return x == ssa.Instruction(selTo) }})
-		_, beforeTest := CanReach(ka, in, func(x ssa.Instruction) bool { return x == ssa.Instruction(selTo) }, PathQ{BlockInstr: func(x ssa.Instruction) bool { return x == ssa.Instruction(ping) }})
+		_, afterPing := CanReach(ka, ping, func(x ssa.Instruction) bool { return x == in }, PathQ{BlockInstr: func(x ssa.Instruction) bool { return x == tt.At }})
+		_, beforeTest := CanReach(ka, in, func(x ssa.Instruction) bool { return x == tt.At }, PathQ{BlockInstr: func(x ssa.Instruction) bool { return x == ssa.Instruction(ping) }})
 		if afterPing && beforeTest {
 			cancelled = true
 			rr.Bad("KeepAlive/cancel-before-test", in.Pos(), "the timeout context is cancelled between Ping's return and the test of its Done(): the test then always succeeds and every failing ping is reported as ErrPingTimeout")
 		}
 	})
 	if !cancelled {
-		rr.OK("KeepAlive/cancel-before-test", selTo.Pos(), "no cancel() of the timeout context on any path between Ping and the timeout test")
+		rr.OK("KeepAlive/cancel-before-test", tt.At.Pos(), "no cancel() of the timeout context on any path between Ping and the timeout test")
 	}
 }
 
